@@ -21,6 +21,22 @@ def run_c01(tier, seed, res):
     E.run_workload(res, "mon", "C01", sz(tier, 40000, 1200000), tier, seed)
     if tier == "thorough":
         E.run_workload(res, "asan", "C01", 20000, tier, seed + 1, env=ASAN_ENV)
+    # the scorers have cfg-gated alternative implementations (byte-wise automaton, uncached type scorer, variable-length
+    # weights): the same reference comparison inside those builds
+    names = ["no-charwise", "no-cache"] if tier == "quick" else ["no-charwise", "no-cache", "no-fix", "no-tags", "alloc-only"]
+    build_many(["feat:" + x for x in names])
+    for x in names:
+        sub = E.Results()
+        E.run_workload(sub, "feat:" + x, "C13", sz(tier, 2000, 20000), tier, seed, tag="c01-feat-%s" % x, chunks=max(1, E.NCPU // 2))
+        for v in sub.violations:
+            if "scores_differ" in v["sig"] or "decisions_differ" in v["sig"] or ":abort:" in v["sig"] or "panicked" in v["sig"]:
+                v = dict(v)
+                v["sig"] = "C01:" + v["sig"].split(":", 1)[1] + "[features=%s]" % x
+                res.violations.append(v)
+        res.incidents.extend(sub.incidents)
+        res.runs.extend(sub.runs)
+        res.evals += sub.evals
+        res.add_counter("cases_scored_in_builds_with_alternative_scorers", sub.cases)
     return {
         "rule": "case = generated well-formed model (mirror -> Model::read_slice) + 3..8 texts built from a small alphabet so that "
                 "patterns occur; every boundary score and decision is compared with the naive reference scorer, for the plain and "
@@ -34,7 +50,7 @@ def run_c01(tier, seed, res):
                      "cases_with_weight_vectors_longer_than_8", "cases_with_weight_vectors_up_to_8",
                      "matched_chars_2_bytes", "matched_chars_3_bytes", "matched_chars_4_bytes", "window_ge_9",
                      "texts_longer_than_65535", "sentences_predicted_twice_in_a_row",
-                     "cases_with_entry_cancelling_its_suffix_chain"],
+                     "cases_with_entry_cancelling_its_suffix_chain", "cases_scored_in_builds_with_alternative_scorers"],
     }
 
 
@@ -50,7 +66,7 @@ def run_c06(tier, seed, res):
         "rule": "case = generated model with >= 1 tag model + texts; after predict (boundaries kept or overwritten so that modelled "
                 "tokens occur) and fill_tags every tag, n_tags and (score storing on) every candidate score is compared with the "
                 "reference tagger; non-trivial iff at least one token with a tag model was checked",
-        "required": ["fill_tags_runs_with_unknown_boundaries_present", "tokens_with_tag_model", "categories_with_0_candidates", "categories_with_1_candidate",
+        "required": ["fill_tags_runs_with_unknown_boundaries_present", "models_with_more_than_65536_tag_models", "tokens_with_tag_model", "categories_with_0_candidates", "categories_with_1_candidate",
                      "categories_with_2+_candidates", "tag_ties", "tag_ngram_matched_at_rel_0", "tag_ngram_matched_at_rel_1",
                      "tag_ngram_matched_at_rel_2", "models_with_more_than_8_classes",
                      "tokens_with_candidate_scores_compared", "models_with_empty_char_boundary_model",
@@ -106,7 +122,8 @@ def run_c02(tier, seed, res):
                      "vectors_with_skipped_final_segment", "vectors_without_unknown", "exhaustive_label_vectors",
                      "sentences_via_from_raw+boundaries_mut", "sentences_via_predict_then_boundaries_mut",
                      "sentences_via_from_partial_annotation", "sentences_via_update_raw_after_text_of_same_shape",
-                     "fallback_sentences_after_rejected_update_checked"],
+                     "fallback_sentences_after_rejected_update_checked", "sentences_predicted_edited_and_predicted_again",
+                     "sentences_longer_than_65535_chars"],
         "exhaustive": True,
         "extra": {"exhaustive_scope": "all 3^(n-1) label vectors for n = 1..%d (the random part is sampled)" % nmax},
     }
@@ -140,7 +157,8 @@ def run_c04(tier, seed, res):
                 "back text, labels and tags (modulo trailing absent tags); distinct = distinct sentences",
         "required": ["sentences_with_tags", "sentences_with_unknown_boundary", "sentences_with_space_inside_a_tag",
                      "sentences_with_slash_inside_a_tag", "sentences_with_backslash_inside_a_tag",
-                     "sentences_with_dash_inside_a_tag", "sentences_with_pipe_inside_a_tag", "sentences_with_interior_absent_tag"],
+                     "sentences_with_dash_inside_a_tag", "sentences_with_pipe_inside_a_tag", "sentences_with_interior_absent_tag",
+                     "sentences_with_more_than_255_tag_columns", "special_history_states_round_tripped"],
     }
 
 
@@ -182,6 +200,7 @@ def run_c05(tier, seed, res):
 # ------------------------------------------------------------------ C07
 def run_c07(tier, seed, res):
     E.run_workload(res, "mon", "C07", sz(tier, 1500, 40000), tier, seed, per_case_timeout=5.0)
+    E.run_workload(res, "mon", "C07cli", sz(tier, 48, 600), tier, seed, extra=cli_extra("C07"), per_case_timeout=30.0)
     # the file format must not depend on the feature configuration: model round trip inside reduced builds
     names = ["no-tags", "alloc-only"]
     build_many(["feat:" + x for x in names])
@@ -203,11 +222,13 @@ def run_c07(tier, seed, res):
                 "reference; read_slice returns exactly the appended bytes; then EVERY proper prefix (both readers), EVERY byte position of an "
                 "injected reader fault and writer fault, and EVERY single-byte change of the 25-byte header must yield Err without panic "
                 "(3 of 4 models are small enough for complete enumeration; the others and the shipped model use all prefixes < 64 plus 400 sampled points); "
+                "the real manipulate_model / convert_kytea_model / train binaries writing their model to /dev/full (every write fails) must not exit 0; "
                 "distinct = distinct model byte strings",
         "required": ["prefixes_tried", "prefixes_shorter_than_header", "io_fault_points_tried", "header_mutations_tried",
                      "models_with_tag_models", "models_fully_enumerated", "shipped_model_checked", "large_model_round_trips",
                      "model_round_trips_in_reduced_feature_builds", "models_with_repeated_dictionary_word",
-                     "models_with_dictionary_word_longer_than_32767_bytes"],
+                     "models_with_dictionary_word_longer_than_32767_bytes",
+                     "runs_with_failing_output_device:manipulate_model", "runs_with_failing_output_device:convert_kytea_model"],
         "exhaustive": True,
         "extra": {"exhaustive_scope": "per fully enumerated model: all proper prefixes, all reader/writer fault positions, all 25x255 header byte changes"},
     }
@@ -251,7 +272,7 @@ def run_c15(tier, seed, res):
                 "labels incl. unknown; 0..3 tag slots) x 9 filters (six character types, line breaks, grapheme clusters, pattern tagger with "
                 "random rules); after filter: text, types, tag count, every boundary and every tag compared with the reference rule "
                 "(grapheme clusters from unicode-segmentation over the whole string); filter applied twice == once; distinct = distinct sentences",
-        "required": ["fallback_sentences_filtered", "sentences_where_extended_and_legacy_clusters_differ",
+        "required": ["fallback_sentences_filtered", "sentences_where_extended_and_legacy_clusters_differ", "sentences_with_empty_string_tag",
                      "sentences_with_multi_char_grapheme_cluster", "sentences_with_cr_or_lf", "sentences_with_unknown_boundary",
                      "sentences_with_tags", "single_character_sentences", "sentences_with_cluster_longer_than_64_bytes",
                      "sentences_with_more_than_32_tag_columns",
@@ -274,7 +295,8 @@ def run_c09(tier, seed, res):
         "required": ["configs_with_char_window_gt_type_window", "configs_with_type_window_gt_char_window",
                      "configs_with_word_longer_than_bucket", "trained_char_ngrams", "trained_type_ngrams",
                      "trained_dict_words_with_nonzero_weight", "boundaries_scored_with_nonzero_feature_weight",
-                     "configs_with_window_0", "configs_with_window_of_8_or_more"] + ["solver_%d" % i for i in range(8)],
+                     "configs_with_window_0", "configs_with_window_of_8_or_more", "evaluation_sentences_predicted_twice",
+                     "evaluation_sentences_longer_than_65535"] + ["solver_%d" % i for i in range(8)],
     }
 
 
@@ -287,7 +309,8 @@ def run_c10(tier, seed, res):
                 "non-trivial iff the corpus has an annotated boundary",
         "required": ["unknown_boundaries_in_corpus", "annotated_boundaries_in_corpus", "examples_with_feature_count_above_1",
                      "configs_with_window_0", "configs_with_n_greater_than_window", "configs_with_dictionary",
-                     "sentences_without_any_annotation", "configs_with_window_above_128_and_long_sentence"],
+                     "sentences_without_any_annotation", "configs_with_window_above_128_and_long_sentence",
+                     "sentences_equal_to_the_shortest_dictionary_word"],
     }
 
 
@@ -303,7 +326,8 @@ def run_c11(tier, seed, res):
         "required": ["training_returned_model", "training_returned_error", "train_cli_wrote_model", "configs_with_window_of_8_or_more",
                      "cases_with_large_dictionary", "configs_with_type_window_gt_char_window",
                      "configs_with_n_greater_than_window", "configs_with_window_0", "corpora_with_tags",
-                     "configs_with_char_window_of_128_or_more", "configs_with_type_window_of_128_or_more"] +
+                     "configs_with_char_window_of_128_or_more", "configs_with_type_window_of_128_or_more",
+                     "dictionaries_with_blank_word"] +
                     ["solver_%d" % i for i in range(8)] +
                     ["corpus_class_%s" % c for c in ["normal", "empty", "single_sentence", "single_character", "no_word_boundary",
                                                       "only_word_boundaries", "untagged", "partially_tagged", "ambiguous_tags",
@@ -345,7 +369,8 @@ def run_c17(tier, seed, res):
                      "files_with_word_longer_than_bucket", "files_with_windows_that_differ", "files_with_extra_stored_weights",
                      "char_ngrams_in_files", "type_ngrams_in_files", "dictionary_words_in_files", "shipped_kytea_model_checked",
                      "files_with_every_prefix_enumerated", "files_with_char_ids_above_32767", "files_with_word_of_255_or_more_chars",
-                     "tool_conversions_equal_to_library_conversion", "converted_models_larger_than_128KiB"],
+                     "tool_conversions_equal_to_library_conversion", "converted_models_larger_than_128KiB",
+                     "files_with_present_but_empty_ngram_trie"],
     }
 
 
